@@ -646,6 +646,12 @@ func genC01Doc(r *rand.Rand, adv float64, av c01Avoid) c01Doc {
 				}
 				params = append(params, g.param(g.pick("query", "query", "header", "cookie"), on))
 			}
+			if len(pnames) > 0 && r.Intn(6) == 0 {
+				// a query parameter with the NAME of a path variable of the same operation (children after this id):
+				// parameters are identified by location and name
+				params = append(params, g.param("query", pnames[0]))
+				g.feat["param=same-name-in-path-and-query"]++
+			}
 			if len(cparamNames) > 0 && r.Intn(3) == 0 {
 				cn := cparamNames[r.Intn(len(cparamNames))]
 				refName := cparams[cn].(map[string]any)["name"].(string)
